@@ -166,6 +166,9 @@ func TestVerifOAuthGrantConcurrent(t *testing.T) {
 			}
 		}
 		w.cleanup()
+		if w.interfered != "" {
+			t.Fatalf("run %d: %s", run, w.interfered)
+		}
 	}
 	ogW = nil
 }
